@@ -1,5 +1,5 @@
 (* Lemmas about Model/UdpParse.v (C07). *)
-From Chihaya Require Import Model.UdpParse Proofs.ConnIDP.
+From Chihaya Require Import Model.UdpParse Proofs.ConnIDP Proofs.QueryP.
 From Coq Require Import ZifyBool ZifyNat.
 Open Scope Z_scope.
 
@@ -339,4 +339,72 @@ Proof.
   - destruct (parse_scrape o packet); try discriminate. destruct (ip_family ip); discriminate.
   - destruct (parse_announce (a =? act_announce_v6) o (Some ip) packet) as [[r' q']|e|] eqn:P; try discriminate.
     intros [= <- <- <- <-]. exact P.
+Qed.
+
+(* ------------------------------------------------------------------------
+   The client-visible error texts of the UDP parsers are a FIXED list of
+   constants: whatever the datagram (incl. its BEP 41 URL data), a rejection
+   carries one of these 8 texts - nothing of the request is echoed, and every
+   text is 7-bit ASCII (a valid Prometheus label value: C13). *)
+Definition udp_client_errors : list err :=
+  [errMalformedPacket; errMalformedIP; errMalformedEvent; errUnknownOptionType;
+   ErrInvalidIP; ErrInvalidPort; ErrInvalidInfohash; ErrInvalidQueryEscape].
+
+Definition ascii_text_u (m : bytes) : bool := forallb (fun c => (32 <=? c) && (c <? 127)) m.
+Lemma udp_client_errors_ascii :
+  Forall (fun e => exists m, e = ClientErr m /\ ascii_text_u m = true) udp_client_errors.
+Proof. repeat constructor; eexists; split; reflexivity. Qed.
+
+Ltac in_uerrs := cbn [udp_client_errors In]; repeat (first [left; reflexivity | right]).
+
+Lemma options_loop_fixed fuel : forall p acc e, options_loop fuel p acc = Some (inl e) -> In e udp_client_errors.
+Proof.
+  induction fuel as [|fuel IH]; intros p acc e H.
+  - destruct p; discriminate.
+  - destruct p as [|o r]; [discriminate|]. cbn [options_loop] in H.
+    destruct (o =? opt_end); [discriminate|].
+    destruct (o =? opt_nop); [eapply IH; exact H|].
+    destruct (o =? opt_urldata).
+    + destruct r as [|len r']; [injection H as <-; in_uerrs|].
+      destruct (Z.of_nat (length r') <? len); [injection H as <-; in_uerrs|]. eapply IH; exact H.
+    + injection H as <-. in_uerrs.
+Qed.
+
+Lemma handle_optional_fixed p e : handle_optional p = Reject e -> In e udp_client_errors.
+Proof.
+  unfold handle_optional. destruct (options_loop (length p) p []) as [[e0|d]|] eqn:E; [| |discriminate].
+  - intros [= <-]. eapply options_loop_fixed; exact E.
+  - destruct (parse_url_data d) as [e1|q] eqn:Eq; [|discriminate]. intros [= <-].
+    apply parse_url_data_err in Eq as [->| ->]; in_uerrs.
+Qed.
+
+Lemma sanitize_announce_fixed_u r mx df e : sanitize_announce r mx df = inl e -> In e udp_client_errors.
+Proof.
+  unfold sanitize_announce. destruct (p_port (r_peer r) =? 0); [intros H; injection H as <-; in_uerrs|].
+  destruct (to4 _); [discriminate|]. destruct (Nat.eqb _ 16); [discriminate|].
+  intros H; injection H as <-; in_uerrs.
+Qed.
+
+Theorem udp_announce_reject_texts_fixed v6 o src packet e :
+  parse_announce v6 o src packet = Reject e -> In e udp_client_errors.
+Proof.
+  destruct (Nat.ltb_spec (length packet) (ip_end v6 + 10)) as [C|C].
+  - unfold parse_announce. destruct (Nat.ltb_spec (length packet) (ip_end v6 + 10)); [|lia]. intros [= <-]. in_uerrs.
+  - destruct (parse_announce_total v6 o src packet C) as (ev & _ & ->). unfold announce_of_fields.
+    destruct (Z.of_nat (length event_ids) <=? ev); [intros [= <-]; in_uerrs|].
+    destruct (choose_ip _ _ _) as [ip0 prov0].
+    destruct (negb (o_spoof o) && _); [intros [= <-]; in_uerrs|].
+    destruct (handle_optional _) as [q|e0|] eqn:Eh; [| |discriminate].
+    + destruct (nth_error event_ids (Z.to_nat ev)); [|discriminate].
+      destruct (sanitize_announce _ _ _) as [e1|r] eqn:Es; [|discriminate]. intros [= <-].
+      eapply sanitize_announce_fixed_u; exact Es.
+    + intros [= <-]. eapply handle_optional_fixed; exact Eh.
+Qed.
+
+Theorem udp_scrape_reject_texts_fixed o packet e :
+  parse_scrape o packet = Reject e -> In e udp_client_errors.
+Proof.
+  unfold parse_scrape. destruct (Nat.ltb (length packet) 36); [intros [= <-]; in_uerrs|].
+  destruct (slice 16 (length packet) packet); [|discriminate].
+  destruct (negb _); [intros [= <-]; in_uerrs|discriminate].
 Qed.
